@@ -97,6 +97,9 @@ Proof.
   - intros a b c d ->. discriminate Q.
 Qed.
 
+Lemma rest20_mk h f i l b e : (forall id lvl, e <> ELogReq id lvl) -> rest20 (mk20 h f i l b (Some e) false).
+Proof. intros N. split; [reflexivity|]. simpl. intros id lvl E. inversion E. subst. exfalso. eapply N; reflexivity. Qed.
+
 Lemma rest20_after m e :
   (forall id lvl, e <> ELogReq id lvl) ->
   rest20 (mk20 (l_has m) (l_filt m) (l_ids m) (l_last m) (l_body m) (Some e) false).
@@ -941,15 +944,16 @@ Proof. intros H. inversion H; subst; eauto. Qed.
 
 (* a frame pop at the head *)
 Lemma FK_pop k0 cs : FK (MPopFrame :: k0) cs ->
-  exists c cs', cs = c :: cs' /\ (forall pre, forallb calm pre = true -> poppers pre = [] -> FK (pre ++ k0) cs').
+  exists c cs', cs = c :: cs' /\ (c = XNone \/ (c = XStk /\ cs' = [])) /\
+               (forall pre, forallb calm pre = true -> poppers pre = [] -> FK (pre ++ k0) cs').
 Proof.
   intros (w1 & w2 & E & C & P & F). destruct w1 as [|x w1]; simpl in E.
   - subst w2. simpl in P. discriminate.
   - inversion E; subst. simpl in F. simpl in C.
     apply fr_ok_pop_inv in F as [[PW ->]|(cs' & -> & F)].
-    + exists XStk, []. split; auto. intros pre CP PP. exists (pre ++ w1), w2. rewrite app_assoc. split; auto.
+    + exists XStk, []. split; auto. split; auto. intros pre CP PP. exists (pre ++ w1), w2. rewrite app_assoc. split; auto.
       split. rewrite forallb_app, CP, C. reflexivity. split; auto. rewrite poppers_app, PP, PW. constructor.
-    + exists XNone, cs'. split; auto. intros pre CP PP. exists (pre ++ w1), w2. rewrite app_assoc. split; auto.
+    + exists XNone, cs'. split; auto. split; auto. intros pre CP PP. exists (pre ++ w1), w2. rewrite app_assoc. split; auto.
       split. rewrite forallb_app, CP, C. reflexivity. split; auto. rewrite poppers_app, PP. exact F.
 Qed.
 
@@ -1084,4 +1088,570 @@ Proof.
     + left. split; auto. apply guarded_app; auto. eapply guarded_pers with (s := s1).
       * apply pers_same. reflexivity.
       * eapply guarded_pers; eauto. eapply guarded_tail; eauto.
+Qed.
+
+(* MTerminate: effects, then the Close record micro-op with the notification right behind it *)
+Lemma I20_terminate a c k0 s pre s' m :
+  terminate a c s = (pre, s') ->
+  mon20 (tr s) = Some m -> J m s -> FK (MTerminate a c :: k0) (ctxs s) -> guarded s (MTerminate a c :: k0) -> rest20 m ->
+  Z.of_nat (length (tr s')) < BOUND -> I20 (pre ++ k0) s'.
+Proof.
+  intros H MM JJ FF GG RR BB.
+  assert (CP : forallb calm pre = true) by (eapply (qmop_calm_pre (MTerminate a c)); eauto).
+  destruct (terminate_l _ _ _ _ _ H) as [E [[P Q]|(dl & x & nt & -> & P & Q & AX & NT)]].
+  - apply (I20_lout (MTerminate a c) k0 s pre s' m); auto. apply lo_eff; auto.
+  - destruct (leff_J _ _ E m MM JJ RR BB) as (m1 & M1 & J1 & R1 & P1).
+    exists m1. split; auto. split; auto. split.
+    + rewrite (leff_ctxs _ _ E). eapply FK_eff; eauto. rewrite poppers_app, P. reflexivity.
+    + left. split; auto. rewrite <- app_assoc. apply guarded_app; auto.
+      destruct (P1 _ _ AX) as (x' & AX' & _). simpl.
+      eapply g_pair; eauto. eapply (j_shape _ _ JJ); eauto.
+      eapply guarded_pers; eauto. eapply guarded_tail; eauto. reflexivity.
+Qed.
+
+Lemma rest_not_span m : rest20 m -> l_span m = false. Proof. intros [A _]. exact A. Qed.
+
+(* MLogClose: the Close record (if the filter lets it through); the notification is next *)
+Lemma I20_logclose a c r k1 s pre s' m :
+  handle (MLogClose a c) s = (pre, s') ->
+  mon20 (tr s) = Some m -> J m s -> FK (MLogClose a c :: MRetInvoke r (Some (MCause c)) :: k1) (ctxs s) ->
+  guarded s (MLogClose a c :: MRetInvoke r (Some (MCause c)) :: k1) -> rest20 m ->
+  I20 (pre ++ MRetInvoke r (Some (MCause c)) :: k1) s'.
+Proof.
+  intros H MM JJ FF GG RR. simpl in H.
+  inversion GG as [|a0 c0 r0 k x NS AX G1|m0 k PL G1]; subst; [|discriminate PL].
+  rewrite AX in H. inversion H; subst. clear H. simpl.
+  pose proof (deliver_J _ _ LOGLEVEL_CLOSE JJ) as DL.
+  assert (FK' : FK (MRetInvoke r (Some (MCause c)) :: k1) (ctxs s)).
+  { change (MRetInvoke r (Some (MCause c)) :: k1) with ([] ++ MRetInvoke r (Some (MCause c)) :: k1). eapply FK_eff; eauto. }
+  unfold log_rec. destruct (allows s LOGLEVEL_CLOSE && haslogger s) eqn:DV.
+  - (* delivered *)
+    set (e := ELog (a_logid x) LOGLEVEL_CLOSE 0 (marker_of c)).
+    assert (ST : step20 m e = Some (mk20 (l_has m) (l_filt m) (l_ids m) (l_last m) (l_body m) (Some e) true)).
+    { unfold e. rewrite step20_rest_log; auto. unfold step20, clr. simpl. norm_allows m.
+      change (l_has m && allows20 m LOGLEVEL_CLOSE) with (deliver20 m LOGLEVEL_CLOSE). rewrite DL.
+      destruct c; reflexivity. }
+    eexists. split. { simpl tr. rewrite mon20_obs by reflexivity. rewrite MM. exact ST. }
+    split. { eapply J_emit; eauto. repeat split. }
+    split. { exact FK'. }
+    right. exists a, c, r, k1. split; auto. split; auto. split.
+    { eapply guarded_pers; [|exact G1]. apply pers_same. reflexivity. }
+    unfold pend, deliver20. simpl. norm_allows m.
+    change (l_has m && allows20 m LOGLEVEL_CLOSE) with (deliver20 m LOGLEVEL_CLOSE). rewrite DL.
+    split; auto. exists (a_logid x), 0. split; auto.
+    intros i NG. destruct (j_ids _ _ JJ _ _ NG) as (x' & AX' & LX). congruence.
+  - exists m. split; auto. split; auto. split; auto. right. exists a, c, r, k1. repeat split; auto.
+    unfold pend. rewrite DL. exact RR.
+Qed.
+
+Lemma ref_clone_fields s a :
+  haslogger (ref_clone s a) = haslogger s /\ logfilter (ref_clone s a) = logfilter s /\ logseq (ref_clone s a) = logseq s /\
+  (length (tr s) <= length (tr (ref_clone s a)))%nat.
+Proof.
+  unfold ref_clone. destruct (aget (actors s) a) as [x|]; [destruct (a_freed x)|]; simpl; repeat split; auto; lia.
+Qed.
+
+(* the notification behind a Close record *)
+Lemma I20_pending a c r k1 s pre s' m :
+  ret_invoke r (Some (MCause c)) s = (pre, s') ->
+  mon20 (tr s) = Some m -> J m s -> FK (MRetInvoke r (Some (MCause c)) :: k1) (ctxs s) ->
+  nshape a r -> guarded s k1 -> pend m a c ->
+  Z.of_nat (length (tr s')) < BOUND -> I20 (pre ++ k1) s'.
+Proof.
+  intros H MM JJ FF NS G1 PD BB.
+  assert (CP : forallb calm pre = true) by (eapply (qmop_calm_pre (MRetInvoke r (Some (MCause c)))); eauto).
+  destruct r as [rid rk]. destruct rk; simpl in NS; try contradiction; simpl in H.
+  - (* the notifier itself *)
+    subst a0.
+    set (e := ENotify a (Some c)).
+    assert (ST : exists m1, step20 m e = Some m1 /\ same20 m m1 /\ rest20 m1).
+    { exists (mk20 (l_has m) (l_filt m) (l_ids m) (l_last m) (l_body m) (Some e) false).
+      split; [|split; [repeat split | apply rest20_after; unfold e; intros; discriminate]].
+      unfold pend in PD. destruct (deliver20 m LOGLEVEL_CLOSE) eqn:DL.
+      - destruct PD as (SP & id & par & LP & IDS).
+        unfold step20, e. rewrite LP, SP. simpl. replace (marker_of c =? marker20 c)%N with true by (destruct c; reflexivity). simpl.
+        destruct (nget (l_ids m) a) as [i|] eqn:NG.
+        + rewrite (IDS _ eq_refl), Z.eqb_refl. reflexivity.
+        + reflexivity.
+      - unfold e. rewrite step20_rest by (auto; intros; discriminate). unfold step20, clr. simpl. norm_allows m.
+        change (l_has m && allows20 m LOGLEVEL_CLOSE) with (deliver20 m LOGLEVEL_CLOSE). rewrite DL. reflexivity. }
+    destruct ST as (m1 & ST & SM & R1).
+    assert (M1 : mon20 (tr (emit s e)) = Some m1) by (simpl tr; rewrite mon20_obs by reflexivity; rewrite MM; exact ST).
+    assert (J1 : J m1 (emit s e)) by (eapply J_emit; eauto).
+    assert (FK1 : FK (MRetInvoke (Ret rid (RKNotify a inner)) (Some (MCause c)) :: k1) (ctxs (emit s e))) by exact FF.
+    assert (GG1 : guarded (emit s e) (MDropRef 0 :: k1)).
+    { apply g_other; auto. eapply guarded_pers; [|exact G1]. apply pers_same. reflexivity. }
+    assert (FK2 : FK (MDropRef 0 :: k1) (ctxs (emit s e))).
+    { change (MDropRef 0 :: k1) with ([MDropRef 0] ++ k1). eapply FK_eff; eauto. }
+    destruct inner as [[p ci]|]; inversion H; subst; clear H.
+    + eapply (I20_lout (MDropRef 0)); eauto. apply lo_eff; try reflexivity. apply le_submit, le_refl.
+    + eapply (I20_lout (MDropRef 0)); eauto. apply lo_eff; try reflexivity. apply le_refl.
+  - (* the wrapper of a slab child: unwrap, still pending *)
+    inversion H; subst; clear H.
+    assert (E : leff s (push_main (ref_clone s p) (CI 0 0 (KSlabRm p key) [] None))) by (apply le_push_main, le_ref_clone, le_refl).
+    assert (OB : observable (tr (push_main (ref_clone s p) (CI 0 0 (KSlabRm p key) [] None))) = observable (tr s)).
+    { unfold push_main, ref_clone. destruct (aget (actors s) p) as [x|]; [destruct (a_freed x)|]; reflexivity. }
+    assert (M1 : mon20 (tr (push_main (ref_clone s p) (CI 0 0 (KSlabRm p key) [] None))) = Some m).
+    { unfold mon20. rewrite OB. exact MM. }
+    assert (PE : pers s (push_main (ref_clone s p) (CI 0 0 (KSlabRm p key) [] None))).
+    { intros b y AY. destruct (lsame_some _ _ _ _ (lsame_ref_clone s p) AY) as (y' & AY' & LY). exists y'. split; auto. }
+    assert (J1 : J m (push_main (ref_clone s p) (CI 0 0 (KSlabRm p key) [] None))).
+    { pose proof (lsame_ref_clone s p) as [LC LA]. destruct (ref_clone_fields s p) as (RF1 & RF2 & RF3 & RF4).
+      destruct JJ as [A B C D F G K L]. constructor.
+      - change (haslogger (push_main (ref_clone s p) (CI 0 0 (KSlabRm p key) [] None))) with (haslogger (ref_clone s p)). congruence.
+      - change (logfilter (push_main (ref_clone s p) (CI 0 0 (KSlabRm p key) [] None))) with (logfilter (ref_clone s p)). congruence.
+      - change (logseq (push_main (ref_clone s p) (CI 0 0 (KSlabRm p key) [] None))) with (logseq (ref_clone s p)). rewrite RF3. exact C.
+      - change (logseq (push_main (ref_clone s p) (CI 0 0 (KSlabRm p key) [] None))) with (logseq (ref_clone s p)).
+        change (tr (push_main (ref_clone s p) (CI 0 0 (KSlabRm p key) [] None))) with (tr (ref_clone s p)). rewrite RF3. lia.
+      - intros b id NG. destruct (F _ _ NG) as (y & AY & LY). destruct (PE _ _ AY) as (y' & AY' & LY'). exists y'. split; auto. congruence.
+      - intros b y nt AY NT. unfold push_main, ref_clone in AY. simpl in AY.
+        destruct (aget (actors s) p) as [x|] eqn:AP; [|eapply G; eauto].
+        assert (AY2 : aget (aset (actors s) p (with_rc x (oz (minrc_clone (a_rc x))))) b = Some y) by (destruct (a_freed x); exact AY).
+        destruct (N.eq_dec p b) as [<-|NE].
+        + rewrite aget_aset_eq in AY2. inversion AY2; subst y. simpl in NT. eapply G; eauto.
+        + rewrite aget_aset_neq in AY2 by auto. eapply G; eauto.
+      - change (ctxs (push_main (ref_clone s p) (CI 0 0 (KSlabRm p key) [] None))) with (ctxs (ref_clone s p)). rewrite LC. exact K.
+      - change (ctxs (push_main (ref_clone s p) (CI 0 0 (KSlabRm p key) [] None))) with (ctxs (ref_clone s p)). rewrite LC. exact L. }
+    exists m. split; auto. split; auto. split.
+    + change (ctxs (push_main (ref_clone s p) (CI 0 0 (KSlabRm p key) [] None))) with (ctxs (ref_clone s p)).
+      rewrite (proj1 (lsame_ref_clone s p)). eapply FK_eff; eauto.
+    + right. exists a, c, inner, (MDropRef p :: k1). split; auto. split; auto. split; auto.
+      apply g_other; auto. eapply guarded_pers; eauto.
+Qed.
+
+Lemma nested_tail c cs : nested_ok (c :: cs) -> nested_ok cs.
+Proof. destruct cs; simpl; auto. intros [_ H]. exact H. Qed.
+
+Lemma calm_drops l : forallb calm (drops l) = true.
+Proof. apply quiet_calm, quiet_drops. Qed.
+
+(* MPopFrame *)
+Lemma I20_pop k0 s pre s' m :
+  handle MPopFrame s = (pre, s') ->
+  mon20 (tr s) = Some m -> J m s -> FK (MPopFrame :: k0) (ctxs s) -> guarded s (MPopFrame :: k0) -> rest20 m ->
+  I20 (pre ++ k0) s'.
+Proof.
+  intros H MM JJ FF GG RR. simpl in H.
+  destruct (FK_pop _ _ FF) as (c & cs' & CS & CC & FP).
+  destruct (frames s) as [|fr rest] eqn:FR; [unfold ctxs in CS; rewrite FR in CS; discriminate|].
+  inversion H; subst; clear H.
+  assert (CX : ctxs (set_frames s rest) = cs').
+  { unfold ctxs in *. simpl. rewrite FR in CS. simpl in CS. inversion CS; reflexivity. }
+  exists m. split; auto. split.
+  - destruct JJ as [A B C D F G K L]. constructor; auto.
+    + rewrite CX. rewrite K, CS. destruct CC as [->|[-> ->]]; [apply body_of_push | reflexivity].
+    + rewrite CX. rewrite CS in L. eapply nested_tail; eauto.
+  - split.
+    + rewrite CX. apply FP. apply calm_drops. apply poppers_drops.
+    + left. split; auto. apply guarded_app. apply plain_drops.
+      eapply guarded_pers with (s := s); [apply pers_same; reflexivity|]. eapply guarded_tail; eauto. reflexivity.
+Qed.
+
+Lemma endbody_tail_facts f fr :
+  let tail := match f with
+              | FNone => []
+              | FMeth a => match f_die fr with Some c => [MTerminate a c] | None => [] end
+              | FPrep a ready =>
+                  match f_die fr with
+                  | Some c => if ready then [MOrphNew a; MTerminate a c; MOrphDrop a] else [MTerminate a c]
+                  | None => if ready then [MToReady a] else []
+                  end
+              end in
+  poppers tail = [] /\ forallb plain20 tail = true.
+Proof. destruct f; simpl; auto; destruct (f_die fr); try destruct ready; simpl; auto. Qed.
+
+(* MEndBody *)
+Lemma I20_endbody u f k0 s pre s' m :
+  handle (MEndBody u f) s = (pre, s') ->
+  mon20 (tr s) = Some m -> J m s -> FK (MEndBody u f :: k0) (ctxs s) -> guarded s (MEndBody u f :: k0) -> rest20 m ->
+  I20 (pre ++ k0) s'.
+Proof.
+  intros H MM JJ FF GG RR. simpl in H.
+  destruct (FK_end _ _ _ _ FF) as (c & CS & EM & PK).
+  destruct (frames s) as [|fr rest] eqn:FR; [unfold ctxs in CS; rewrite FR in CS; discriminate|].
+  assert (rest = []).
+  { unfold ctxs in CS. rewrite FR in CS. simpl in CS. inversion CS. destruct rest; [reflexivity | discriminate]. }
+  subst rest. inversion H; subst; clear H.
+  destruct (endbody_tail_facts f fr) as [PT QT].
+  eexists. split.
+  { simpl tr. rewrite mon20_obs by reflexivity. rewrite MM. rewrite step20_rest by (auto; intros; discriminate). reflexivity. }
+  split.
+  { destruct JJ as [A B C D F G K L]. constructor; simpl; auto.
+    change (length (EEnd u :: tr s)) with (S (length (tr s))). lia. }
+  split.
+  { apply FK_of_flat. rewrite !poppers_app, poppers_drops, PT, PK. reflexivity. }
+  left. split; [|apply rest20_after; intros; discriminate].
+  apply guarded_app. rewrite forallb_app, plain_drops, QT. reflexivity.
+  eapply guarded_pers with (s := s); [apply pers_same; reflexivity|]. eapply guarded_tail; eauto. reflexivity.
+Qed.
+
+(* MRunItem: a body starts (one frame with Core access is pushed), or effects only *)
+Inductive rcase (s : st) (pre : list mop) (s' : st) : Prop :=
+| rc_run e cx f u body tailm loc :
+    pre = MActs body :: MEndBody u f :: tailm -> poppers tailm = [] -> forallb plain20 tailm = true ->
+    forallb calm tailm = true -> endm f cx -> s' = push_frame (emit s e) cx loc ->
+    ((exists n q, e = ERun u n q /\ cx = XStk) \/ (exists a n, e = EMeth a u n /\ cx = XCx a false) \/
+     (exists a n, e = EPrep a u n /\ cx = XCx a true)) -> rcase s pre s'
+| rc_eff : leff s s' -> poppers pre = [] -> forallb plain20 pre = true -> forallb calm pre = true -> rcase s pre s'.
+
+Lemma run_item_rcase c s pre s' : run_item c s = (pre, s') -> rcase s pre s'.
+Proof.
+  unfold run_item. destruct c as [u i kd caps q]. destruct kd.
+  - intros E; inversion E; subst. eapply rc_run with (tailm := []); try reflexivity. constructor. left. eauto.
+  - destruct (aget (actors s) a) as [x|] eqn:AX.
+    + destruct (a_state x) eqn:SX; intros E; inversion E; subst.
+      * apply rc_eff; try reflexivity. eapply le_upd; [apply le_refl | exact AX | reflexivity | left; reflexivity].
+      * eapply rc_run with (tailm := [MDropRef a]); try reflexivity. constructor. right; left. eauto.
+      * apply rc_eff; try reflexivity. apply le_refl.
+    + intros E; inversion E; subst. apply rc_eff; try reflexivity. apply le_emit; [apply le_refl | reflexivity].
+  - destruct (aget (actors s) a) as [x|] eqn:AX.
+    + destruct (ob (count_is_prep (a_strong x))); intros E; inversion E; subst.
+      * eapply rc_run with (tailm := [MDropRef a]); try reflexivity. constructor. right; right. eauto.
+      * apply rc_eff; try reflexivity. apply le_refl.
+    + intros E; inversion E; subst. apply rc_eff; try reflexivity. apply le_emit; [apply le_refl | reflexivity].
+  - destruct (aget (actors s) p) as [x|] eqn:AX.
+    + destruct (a_state x) eqn:SX.
+      * intros E; inversion E; subst. apply rc_eff; try reflexivity.
+        eapply le_upd; [apply le_refl | exact AX | reflexivity | left; reflexivity].
+      * destruct (nth_error slab (N.to_nat key)) as [[child|nx]|]; intros E; inversion E; subst; apply rc_eff; try reflexivity.
+        -- eapply le_upd; [apply le_refl | exact AX | reflexivity | left; reflexivity].
+        -- apply le_emit; [apply le_refl | reflexivity].
+        -- apply le_emit; [apply le_refl | reflexivity].
+      * intros E; inversion E; subst. apply rc_eff; try reflexivity. apply le_refl.
+    + intros E; inversion E; subst. apply rc_eff; try reflexivity. apply le_emit; [apply le_refl | reflexivity].
+  - intros E; inversion E; subst. apply rc_eff; try reflexivity. apply le_refl.
+  - intros E; inversion E; subst. apply rc_eff; try reflexivity. apply le_refl.
+Qed.
+
+Lemma ctxs_nil_frames s : ctxs s = [] -> frames s = [].
+Proof. unfold ctxs. destruct (frames s); [auto | discriminate]. Qed.
+
+Lemma I20_flat_eff mo k0 s pre s' m :
+  calm mo = false -> plain20 mo = true -> leff s s' -> poppers pre = [] -> forallb plain20 pre = true ->
+  mon20 (tr s) = Some m -> J m s -> FK (mo :: k0) (ctxs s) -> guarded s (mo :: k0) -> rest20 m ->
+  Z.of_nat (length (tr s')) < BOUND -> I20 (pre ++ k0) s'.
+Proof.
+  intros NC PL E P Q MM JJ FF GG RR BB.
+  destruct (leff_J _ _ E m MM JJ RR BB) as (m1 & M1 & J1 & R1 & P1).
+  destruct (FK_flat _ _ _ FF NC) as (CS & PK & _).
+  exists m1. split; auto. split; auto. split.
+  - rewrite (leff_ctxs _ _ E), CS. apply FK_of_flat. rewrite poppers_app, P, PK. reflexivity.
+  - left. split; auto. apply guarded_app; auto. eapply guarded_pers; eauto. eapply guarded_tail; eauto.
+Qed.
+
+Lemma I20_runitem c k0 s pre s' m :
+  run_item c s = (pre, s') ->
+  mon20 (tr s) = Some m -> J m s -> FK (MRunItem c :: k0) (ctxs s) -> guarded s (MRunItem c :: k0) -> rest20 m ->
+  Z.of_nat (length (tr s')) < BOUND -> I20 (pre ++ k0) s'.
+Proof.
+  intros H MM JJ FF GG RR BB.
+  destruct (run_item_rcase _ _ _ _ H) as [e cx f u body tailm loc -> PT QT CT EM -> EV|E P Q CP].
+  - destruct (FK_flat _ _ _ FF eq_refl) as (CS & PK & _).
+    assert (ST : step20 m e = Some (mk20 (l_has m) (l_filt m) (l_ids m) (l_last m) (body_of [cx]) (Some e) false)).
+    { destruct EV as [(n & q & -> & ->)|[(a & n & -> & ->)|(a & n & -> & ->)]];
+        (rewrite step20_rest by (auto; intros; discriminate)); reflexivity. }
+    eexists. split. { simpl tr. rewrite mon20_obs. rewrite MM. exact ST.
+                      destruct EV as [(n & q & -> & ->)|[(a & n & -> & ->)|(a & n & -> & ->)]]; reflexivity. }
+    assert (CX : ctxs (push_frame (emit s e) cx loc) = [cx]).
+    { rewrite ctxs_push. change (ctxs (emit s e)) with (ctxs s). rewrite CS. reflexivity. }
+    split.
+    { destruct JJ as [A B C D F G K L]. constructor.
+      - exact A.
+      - exact B.
+      - exact C.
+      - simpl. change (length (e :: tr s)) with (S (length (tr s))). lia.
+      - exact F.
+      - exact G.
+      - rewrite CX. reflexivity.
+      - rewrite CX. exact I. }
+    split.
+    { rewrite CX. exists (MActs body :: MEndBody u f :: tailm), k0. split; [reflexivity|]. split.
+      - simpl. exact CT.
+      - split; auto. simpl. rewrite PT. constructor. exact EM. }
+    left. split.
+    { change (MActs body :: MEndBody u f :: tailm) with ([MActs body; MEndBody u f] ++ tailm). rewrite <- app_assoc.
+      apply guarded_app; [reflexivity|]. apply guarded_app; auto.
+      eapply guarded_pers with (s := s); [apply pers_same; reflexivity|]. eapply guarded_tail; eauto. reflexivity. }
+    apply rest20_after. destruct EV as [(n & q & -> & ->)|[(a & n & -> & ->)|(a & n & -> & ->)]]; intros; discriminate.
+  - eapply (I20_flat_eff (MRunItem c)); eauto.
+Qed.
+
+Lemma I20_toready a k0 s pre s' m :
+  handle (MToReady a) s = (pre, s') ->
+  mon20 (tr s) = Some m -> J m s -> FK (MToReady a :: k0) (ctxs s) -> guarded s (MToReady a :: k0) -> rest20 m ->
+  Z.of_nat (length (tr s')) < BOUND -> I20 (pre ++ k0) s'.
+Proof.
+  intros H MM JJ FF GG RR BB. simpl in H.
+  assert (X : leff s s' /\ poppers pre = [] /\ forallb plain20 pre = true).
+  { destruct (aget (actors s) a) as [x|] eqn:AX.
+    - destruct (a_state x) eqn:SX; inversion H; subst; repeat split; try reflexivity.
+      + apply le_emit; [|reflexivity]. eapply le_upd; [apply le_refl | exact AX | reflexivity | left; reflexivity].
+      + apply poppers_map_runitem.
+      + apply plain_map_runitem.
+      + apply le_emit; [apply le_refl | reflexivity].
+      + apply le_emit; [apply le_refl | reflexivity].
+    - inversion H; subst. repeat split; try reflexivity. apply le_emit; [apply le_refl | reflexivity]. }
+  destruct X as (E & P & Q). eapply (I20_flat_eff (MToReady a)); eauto.
+Qed.
+
+(* ------------------------------------------------------------------ *)
+(** * Phase and top-level micro-ops *)
+
+Lemma fold_emit_opt_leff (f : N * actor -> option ev) l :
+  (forall p e, f p = Some e -> q20 e = true) -> forall s0 s, leff s0 s -> leff s0 (fold_left (fun x p => emit_opt x (f p)) l s).
+Proof.
+  intros Q. induction l as [|p l IH]; simpl; intros s0 s H; auto.
+  apply IH. unfold emit_opt. destruct (f p) as [e|] eqn:F; auto. apply le_emit; auto. eapply Q; eauto.
+Qed.
+
+Lemma class_flags_leff s0 s : leff s0 s -> leff s0 (class_flags s).
+Proof.
+  intros H. unfold class_flags. apply fold_emit_opt_leff; auto.
+  intros p e F. destruct (class_flag_model _ _ _ F) as (c & a & -> & _). reflexivity.
+Qed.
+
+Lemma emit_list_leff l : Forall (fun e => q20 e = true) l -> forall s0 s, leff s0 s -> leff s0 (set_tr s (l ++ tr s)).
+Proof.
+  intros F. induction F as [|e l Q F IH]; intros s0 s H.
+  - simpl. eapply le_irr; [exact H|]. destruct s; repeat split.
+  - change (set_tr s ((e :: l) ++ tr s)) with (emit (set_tr s (l ++ tr s)) e). apply le_emit; auto.
+Qed.
+
+Lemma leaks_quiet t : Forall (fun e => q20 e = true) (rev (leaks t)).
+Proof.
+  apply Forall_rev. unfold leaks. apply Forall_forall. intros e H. apply in_map_iff in H as (p & <- & _). reflexivity.
+Qed.
+
+Lemma fire_leff t s fired s2 : fire t s = (fired, s2) -> leff s s2.
+Proof.
+  unfold fire. intros E; inversion E; subst. apply le_set_timers.
+  destruct (ambiguous _); [apply le_emit; [apply le_refl | reflexivity] | apply le_refl].
+Qed.
+
+Lemma filter20_of lvls : filter20 lvls = filter_of lvls.
+Proof. reflexivity. Qed.
+
+Lemma J_fields m m' s s' :
+  J m s -> l_has m' = haslogger s' -> l_filt m' = logfilter s' -> 0 <= l_last m' <= logseq s' ->
+  logseq s' <= logseq s -> (length (tr s) <= length (tr s'))%nat -> l_ids m' = l_ids m -> actors s' = actors s ->
+  l_body m' = body_of (ctxs s') -> nested_ok (ctxs s') -> J m' s'.
+Proof.
+  intros [A B C D F G K L] H1 H2 H3 H4 H4' H5 H6 H7 H8. constructor; auto.
+  - lia.
+  - rewrite H5, H6. exact F.
+  - rewrite H6. exact G.
+Qed.
+
+Ltac pp_tac :=
+  simpl; rewrite ?poppers_app, ?forallb_app, ?poppers_map_runitem, ?plain_map_runitem, ?poppers_map_dropitem, ?plain_map_dropitem;
+  reflexivity.
+
+Lemma I20_phase mo k0 s pre s' m :
+  is_work mo = false -> handle mo s = (pre, s') ->
+  mon20 (tr s) = Some m -> J m s -> FK (mo :: k0) (ctxs s) -> guarded s (mo :: k0) -> rest20 m ->
+  Z.of_nat (length (tr s')) < BOUND -> I20 (pre ++ k0) s'.
+Proof.
+  intros W H MM JJ FF GG RR BB.
+  assert (NC : calm mo = false) by (unfold calm; rewrite W; reflexivity).
+  assert (PL : plain20 mo = true) by (destruct mo; try discriminate W; reflexivity).
+  destruct (FK_flat _ _ _ FF NC) as (CS & PK & _).
+  assert (GT : guarded s k0) by (eapply guarded_tail; eauto).
+  assert (EFF : forall pre0 s0, leff s s0 -> poppers pre0 = [] -> forallb plain20 pre0 = true ->
+                 Z.of_nat (length (tr s0)) < BOUND -> I20 (pre0 ++ k0) s0).
+  { intros pre0 s0 E P Q B0. eapply (I20_flat_eff mo); eauto. }
+  destruct mo; try discriminate W; simpl in H.
+  - (* MTop *)
+    unfold do_top in H. destruct o.
+    + destruct (alive s); inversion H; subst; apply EFF; auto; apply le_refl.
+    + destruct (alive s); [|unfold bad in H]; inversion H; subst; apply EFF; auto; apply le_emit; try reflexivity; apply le_refl.
+    + (* TDo *)
+      inversion H; subst; clear H.
+      set (c := if alive s then XStk else XNone).
+      assert (CX : ctxs (push_frame s c []) = [c]) by (rewrite ctxs_push, CS; reflexivity).
+      exists m. split; auto. split.
+      { pose proof JJ as [A B C D F G K L]. apply (J_fields m m s _ JJ); auto.
+        - simpl. lia.
+        - rewrite CX. rewrite K, CS. unfold c. destruct (alive s); reflexivity.
+        - rewrite CX. exact I. }
+      split.
+      { rewrite CX. exists [MActs l; MPopFrame], k0. repeat split; auto. simpl. unfold c.
+        destruct (alive s); [apply fo_do | apply fo_nest, fo_nil]. }
+      left. split; auto. apply (guarded_app _ [MActs l; MPopFrame]); auto.
+      eapply guarded_pers with (s := s); [apply pers_same; reflexivity | exact GT].
+    + destruct (alive s); inversion H; subst; apply EFF; auto; try apply le_refl. apply le_emit; try reflexivity; apply le_refl.
+    + inversion H; subst. apply EFF; auto. apply le_refl.
+    + (* TSetLogger *)
+      destruct (alive s); [|unfold bad in H; inversion H; subst; apply EFF; auto; apply le_emit; try reflexivity; apply le_refl].
+      inversion H; subst; clear H.
+      eexists. split.
+      { simpl tr. rewrite mon20_obs by reflexivity. rewrite MM. rewrite step20_rest by (auto; intros; discriminate). reflexivity. }
+      split.
+      { pose proof JJ as [A B C D F G K L]. apply (J_fields m _ s _ JJ); simpl; auto; lia. }
+      split. { match goal with |- FK _ (ctxs ?x) => change (ctxs x) with (ctxs s); rewrite CS end. apply FK_of_flat. exact PK. }
+      left. split. { eapply guarded_pers with (s := s); [apply pers_same; reflexivity | exact GT]. }
+      apply rest20_mk. intros; discriminate.
+    + (* TSetFilter *)
+      destruct (alive s); [|unfold bad in H; inversion H; subst; apply EFF; auto; apply le_emit; try reflexivity; apply le_refl].
+      inversion H; subst; clear H.
+      change (haslogger (emit s (ESetFilter lvls))) with (haslogger s).
+      assert (ST1 : step20 m (ESetFilter lvls) =
+                    Some (mk20 (l_has m) (filter_of lvls) (l_ids m) (l_last m) (l_body m) (Some (ESetFilter lvls)) false)).
+      { rewrite step20_rest by (auto; intros; discriminate). reflexivity. }
+      destruct (haslogger s) eqn:HL.
+      * eexists. split.
+        { simpl tr. rewrite mon20_obs by reflexivity. rewrite mon20_obs by reflexivity. rewrite MM, ST1.
+          assert (LH : l_has m = true) by (rewrite (j_has _ _ JJ); exact HL).
+          unfold step20. simpl. rewrite LH. reflexivity. }
+        split.
+        { pose proof JJ as [A B C D F G K L]. apply (J_fields m _ s _ JJ); simpl; auto; lia. }
+        split. { match goal with |- FK _ (ctxs ?x) => change (ctxs x) with (ctxs s); rewrite CS end. apply FK_of_flat. exact PK. }
+        left. split. { eapply guarded_pers with (s := s); [apply pers_same; reflexivity | exact GT]. }
+        apply rest20_mk. intros; discriminate.
+      * eexists. split.
+        { simpl tr. rewrite mon20_obs by reflexivity. rewrite MM. exact ST1. }
+        split.
+        { pose proof JJ as [A B C D F G K L]. apply (J_fields m _ s _ JJ); simpl; auto; try lia; try congruence. }
+        split. { match goal with |- FK _ (ctxs ?x) => change (ctxs x) with (ctxs s); rewrite CS end. apply FK_of_flat. exact PK. }
+        left. split. { eapply guarded_pers with (s := s); [apply pers_same; reflexivity | exact GT]. }
+        apply rest20_mk. intros; discriminate.
+  - (* MNew *)
+    inversion H; subst; clear H.
+    eexists. split.
+    { simpl tr. rewrite mon20_obs by reflexivity. rewrite MM. rewrite step20_rest by (auto; intros; discriminate). reflexivity. }
+    split.
+    { pose proof JJ as [A B C D F G K L]. apply (J_fields m _ s _ JJ); try (simpl; auto; lia).
+      all: change (ctxs (fresh_stakker (set_mainq (emit s (ENew t)) []) t)) with (ctxs s); rewrite CS; first [reflexivity | exact I]. }
+    split.
+    { change (ctxs (fresh_stakker (set_mainq (emit s (ENew t)) []) t)) with (ctxs s). rewrite CS.
+      apply FK_of_flat. rewrite poppers_app, poppers_map_dropitem, PK. reflexivity. }
+    left. split; [|apply rest20_mk; intros; discriminate].
+    apply guarded_app. apply plain_map_dropitem.
+    eapply guarded_pers with (s := s); [apply pers_same; reflexivity | exact GT].
+  - (* MRunIdle *)
+    destruct idle; [destruct (idleq s)|]; inversion H; subst; apply EFF; auto; try apply le_refl. apply le_set_idleq, le_refl.
+  - (* MRunMain *)
+    destruct (t >? now s).
+    + inversion H; subst. apply EFF; auto.
+      * apply le_set_timers. destruct (ambiguous _); [apply le_emit; [|reflexivity]|]; apply le_set_now, le_set_mainq, le_refl.
+      * apply poppers_map_runitem.
+      * apply plain_map_runitem.
+    + inversion H; subst. apply EFF; auto. apply le_set_mainq, le_refl. apply poppers_map_runitem. apply plain_map_runitem.
+  - (* MLoop *)
+    destruct (mainq s) as [|c l] eqn:MQ.
+    + destruct (lazyq s) as [|c l] eqn:LQ.
+      * inversion H; subst. apply EFF; auto. apply le_emit; [|reflexivity].
+        destruct (t >? recreate s); [apply le_set_recreate|]; apply le_refl.
+      * inversion H; subst. apply EFF; auto. apply le_set_lazyq, le_refl.
+        pp_tac.
+        pp_tac.
+    + inversion H; subst. apply EFF; auto. apply le_set_mainq, le_refl.
+      pp_tac.
+      pp_tac.
+  - (* MDrain *)
+    destruct (i >=? TEARDOWN_ROUNDS).
+    + inversion H; subst. apply EFF; auto. destruct (is_nil (mainq s)); [apply le_refl | apply le_emit; [apply le_refl | reflexivity]].
+    + destruct (mainq s) as [|c l] eqn:MQ; inversion H; subst; apply EFF; auto; try apply le_refl.
+      * apply le_set_mainq, le_refl.
+      * pp_tac.
+      * pp_tac.
+  - (* MDropFields *)
+    inversion H; subst. apply EFF; auto.
+    + apply le_emit; [|reflexivity]. apply le_set_tvars, le_set_timers, le_set_idleq, le_set_lazyq.
+      destruct (ambiguous (timers s)); [apply le_emit; [apply le_refl | reflexivity] | apply le_refl].
+    + pp_tac.
+    + pp_tac.
+  - (* MDropEnd *)
+    inversion H; subst. apply EFF; auto. apply le_emit; [|reflexivity]. apply le_set_alive.
+    destruct (is_nil (mainq s)); [apply le_refl | apply le_emit; [apply le_refl | reflexivity]].
+  - (* MDropAll *)
+    destruct (amin (env s)) as [[h v]|]; inversion H; subst; apply EFF; auto; try apply le_refl. apply le_set_env, le_refl.
+  - (* MEpilogue *)
+    inversion H; subst. apply EFF; auto. apply le_emit; [apply le_refl | reflexivity].
+  - (* MLeaks *)
+    inversion H; subst. apply EFF; auto. apply emit_list_leff. apply leaks_quiet. apply class_flags_leff, le_refl.
+Qed.
+
+(* ------------------------------------------------------------------ *)
+(** * The theorem *)
+
+Theorem step_I20 k s k' s' :
+  I20 k s -> step k s = Some (k', s') -> Z.of_nat (length (tr s')) < BOUND -> I20 k' s'.
+Proof.
+  intros (m & MM & JJ & FF & GG) H BB. destruct k as [|mo k0]; [discriminate|]. simpl in H.
+  destruct (handle mo s) as [pre s1] eqn:E. inversion H; subst; clear H.
+  destruct GG as [[GG RR]|(a & c & r & k1 & EQ & NS & G1 & PD)].
+  2:{ inversion EQ; subst. simpl in E. eapply I20_pending; eauto. }
+  destruct (lclass mo) eqn:LC.
+  { destruct (lclass_facts _ LC) as (Q & PL & NP).
+    eapply (I20_lout mo); eauto. eapply qmop_calm_pre; eauto. eapply lclass_lout; eauto. }
+  destruct (is_work mo) eqn:W.
+  2:{ eapply I20_phase; eauto. }
+  destruct mo; try discriminate W; try discriminate LC; simpl in E.
+  - eapply I20_pop; eauto.
+  - eapply I20_endbody; eauto.
+  - eapply I20_runitem; eauto.
+  - (* MRetInvoke with a cause: only behind its Close record *)
+    destruct m0 as [[v|c]|]; try (destruct r; discriminate LC). inversion GG; subst. discriminate.
+  - eapply I20_terminate; eauto.
+  - (* MLogClose *)
+    inversion GG as [|a0 c0 r0 k x NS AX G1|m1 k PL G1]; subst; [|discriminate PL].
+    eapply I20_logclose; eauto.
+  - eapply I20_toready; eauto.
+Qed.
+
+Lemma I20_init d p : I20 (map MTop p ++ [MEpilogue]) (init d).
+Proof.
+  exists i20. split; [reflexivity|]. split.
+  - constructor; simpl; auto; try lia. intros a id H. discriminate. intros a x nt H. discriminate.
+  - split.
+    + apply FK_of_flat. rewrite poppers_app. simpl. rewrite app_nil_r. induction p; simpl; auto.
+    + left. split; [|split; [reflexivity | intros id lvl H; discriminate]].
+      apply guarded_app; [|apply g_other; [reflexivity | constructor]]. induction p; simpl; auto.
+Qed.
+
+Lemma run_inv20 fuel : forall k s t,
+  (BOUND <= Z.of_nat (length (tr s)) \/ I20 k s) -> run fuel k s = Done t ->
+  exists s', t = rev (tr s') /\ (BOUND <= Z.of_nat (length (tr s')) \/ I20 [] s').
+Proof.
+  induction fuel as [|f IH]; intros k s t I H; simpl in H.
+  - destruct k; [|discriminate]. inversion H; subst. eauto.
+  - destruct (step k s) as [[k' s']|] eqn:ST.
+    + eapply IH; [|exact H]. destruct I as [B|I].
+      * left. pose proof (ext_len _ _ (step_ext _ _ _ _ ST)). lia.
+      * destruct (Z_lt_le_dec (Z.of_nat (length (tr s'))) BOUND) as [LT|GE]; [right|left; auto].
+        eapply step_I20; eauto.
+    + destruct k; [|simpl in ST; destruct (handle m s); discriminate]. inversion H; subst. eauto.
+Qed.
+
+(** C20 for every program, every amount of fuel and either deferrer kind, on the observable part of the trace;
+    the execution must emit fewer than 2^64 - 1 events (LogIDs are 64-bit counters). *)
+Theorem C20_proved : forall (d : dkind) (p : list top) (fuel : nat) (t : list ev),
+  exec d fuel p = Done t -> Z.of_nat (length t) < 18446744073709551615 -> C20_ok (observable t) = true.
+Proof.
+  intros d p fuel t H BB. unfold exec in H.
+  destruct (run_inv20 fuel _ _ _ (or_intror (I20_init d p)) H) as (s' & -> & [B|I]).
+  - rewrite rev_length in BB. unfold BOUND in B. lia.
+  - destruct I as (m & MM & JJ & FF & GG). unfold C20_ok. rewrite observable_rev, fold_mon_rev.
+    unfold mon20 in MM. rewrite MM.
+    destruct GG as [[_ [LS LR]]|(a & c & r & k1 & EQ & _)]; [|discriminate EQ].
+    unfold fin20. destruct (l_prev m) as [e|] eqn:LP; auto. destruct e; auto.
+    + rewrite LS. reflexivity.
+    + specialize (LR _ _ eq_refl). unfold deliver20 in LR. rewrite LR. reflexivity.
+Qed.
+
+(* the hypotheses are satisfiable by a program that logs: a parent and a child actor, an Open record with a parent
+   id, Close records, user records filtered *)
+Example C20_nontrivial :
+  exists t, exec DGlobal 600
+    [TNew 0; TSetLogger [2; 6; 7];
+     TDo [ANewActor 1 1 None; ACallPrep 1 (Clo 1 0 0 [] [ALog 2; ALog 1]) true;
+          ACall 1 (Clo 2 0 0 [] [ANewActor 2 2 None; ACallPrep 2 (Clo 3 0 0 [] []) true; AStop])];
+     TRun 2 false] = Done t
+    /\ Z.of_nat (length t) < 18446744073709551615
+    /\ In (ELog 1 LOGLEVEL_OPEN 0 0) t /\ In (ELog 2 LOGLEVEL_OPEN 1 0) t /\ In (ELog 1 LOGLEVEL_CLOSE 0 0) t
+    /\ In (ELog 1 LOGLEVEL_INFO 0 0) t /\ ~ In (ELog 1 LOGLEVEL_DEBUG 0 0) t.
+Proof.
+  eexists. split; [vm_compute; reflexivity|]. split; [vm_compute; reflexivity|].
+  repeat split; try (simpl; tauto).
+  intros H. simpl in H. repeat (destruct H as [H|H]; [discriminate H|]). exact H.
 Qed.
